@@ -176,6 +176,8 @@ class Factory(object):
     def interval(self):
         rng = self.rng
         cfg = {'partial_credit': rng.random() < 0.7, 'wrong_msg': rng.choice(['', 'bad interval'])}
+        if rng.random() < 0.3:
+            cfg.update(opening_brackets='([{', closing_brackets=')]}')      # the documented example with braces
         answers = rng.choice(['[1, %s)' % CANARY_ANS, {'expect': ['(', '1', CANARY_ANS, ']'], 'grade_decimal': 0.5, 'msg': 'half'},
                               ({'expect': '[1,%s]' % CANARY_ANS}, {'expect': '(0,2)', 'grade_decimal': 0.3})])
 
@@ -189,7 +191,7 @@ class Factory(object):
             return IntervalGrader(answers=a, **c)
         return {'cls': 'IntervalGrader', 'desc': {'class': 'IntervalGrader', 'config': cfg, 'answers': answers}, 'make': make, 'ninputs': None,
                 'good': ['[1, %s)' % CANARY_ANS, '(1,%s]' % CANARY_ANS, '[1,%s]' % CANARY_ANS], 'partial': ['[1, 9)', '(0,2)', '(1,%s)' % CANARY_ANS],
-                'wrong': ['[5,6]', '(0, 1)', '[1,2', '1,2', '[]', '[1,2,3]', '{1,2}']}
+                'wrong': ['[5,6]', '(0, 1)', '[1,2', '1,2', '[]', '[1,2,3]', '{1,2}', '<1,2]', '[1,2>', '{5,6)']}
 
     def sumgrader(self):
         rng = self.rng
